@@ -1,0 +1,151 @@
+//go:build verif
+
+package internal
+
+// Contracts for timerwheel.go (property C04: expired entries are reclaimed within about one tick of their
+// deadline, never before it).
+
+// geometry fixed by NewTimerWheel: 64/64/32/4/1 buckets whose ticks are 2^30, 2^36, 2^42, 2^47, 2^49 ns
+// (the powers of two above 1 s, 1 min, 1 h, 1 d, 4 d); spans[i+1] is a full rotation of level i
+func sp_wfWheel[K comparable, V any](tw *TimerWheel[K, V]) bool {
+	return len(tw.buckets) == 5 && len(tw.spans) == 6 && len(tw.shift) == 5 && len(tw.wheel) == 5 &&
+		tw.buckets[0] == 64 && tw.buckets[1] == 64 && tw.buckets[2] == 32 && tw.buckets[3] == 4 && tw.buckets[4] == 1 &&
+		tw.shift[0] == 30 && tw.shift[1] == 36 && tw.shift[2] == 42 && tw.shift[3] == 47 && tw.shift[4] == 49 &&
+		tw.spans[0] == 1<<30 && tw.spans[1] == 1<<36 && tw.spans[2] == 1<<42 && tw.spans[3] == 1<<47 && tw.spans[4] == 1<<49 && tw.spans[5] == 1<<49 &&
+		all(func(i uint) bool {
+			return imp(i < 5, uint(len(tw.wheel[i])) == tw.buckets[i] && all(func(j uint) bool {
+				return imp(j < tw.buckets[i], tw.wheel[i][j] != nil && tw.wheel[i][j].listType == WHEEL_LIST)
+			}))
+		}) && tw.clock != nil
+}
+
+// the level a deadline belongs to, seen from wheel time nanos: the finest level whose rotation covers the
+// remaining duration (the coarsest level takes everything beyond)
+func sp_level(duration int64) int {
+	if duration < 1<<36 {
+		return 0
+	}
+	if duration < 1<<42 {
+		return 1
+	}
+	if duration < 1<<47 {
+		return 2
+	}
+	if duration < 1<<49 {
+		return 3
+	}
+	return 4
+}
+
+func sp_shiftOf(level int) uint {
+	if level == 0 {
+		return 30
+	}
+	if level == 1 {
+		return 36
+	}
+	if level == 2 {
+		return 42
+	}
+	if level == 3 {
+		return 47
+	}
+	return 49
+}
+
+func sp_bucketsOf(level int) int {
+	if level == 0 {
+		return 64
+	}
+	if level == 1 {
+		return 64
+	}
+	if level == 2 {
+		return 32
+	}
+	if level == 3 {
+		return 4
+	}
+	return 1
+}
+
+// level from the remaining duration, slot from the absolute deadline tick
+func (tw *TimerWheel[K, V]) spec_findIndex(expire int64) (x int, y int) {
+	requires("wf", sp_wfWheel(tw))
+	ensures("level", x == sp_level(expire-tw.nanos))
+	ensures("slot", y == int(expire>>sp_shiftOf(x))&(sp_bucketsOf(x)-1))
+	ensures("range", x >= 0 && x < 5 && y >= 0 && y < sp_bucketsOf(x))
+	return
+}
+
+func (tw *TimerWheel[K, V]) spec_findIndex_loop1(i int, duration int64, expire int64) {
+	invariant("scanned", i >= 0 && i <= 5 && duration == expire-tw.nanos && imp(i >= 1, duration >= 1<<36) && imp(i >= 2, duration >= 1<<42) &&
+		imp(i >= 3, duration >= 1<<47) && imp(i >= 4, duration >= 1<<49))
+	decreases(5 - i)
+}
+
+// the callback that reclaims an expired entry (Store.removeEntry with reason EXPIRED): C04 "no earlier than
+// the deadline": it is only ever invoked for an entry whose deadline has been reached by wheel time
+func (tw *TimerWheel[K, V]) fspec_expire_remove(entry *Entry[K, V], reason RemoveReason) {
+	requires("locked", heldPolicy())
+	requires("reason", entry != nil && reason == EXPIRED)
+	modifies("Entry.flag.Flags", "Entry.meta.prev", "Entry.meta.next", "Entry.meta.wheelPrev", "Entry.meta.wheelNext", "List.len", "List.count", "TinyLfu.weightedSize",
+		"gh.po_in", "gh.po_ord", "gh.po_win", "gh.po_word", "mapdom<map[K]*Entry>", "mapval<map[K]*Entry>", "maplen<map[K]*Entry>", "gh.owned", "gh.now", "Entry.value", "gh.notified")
+}
+
+// visit the slots of one level for the ticks that have passed
+func (tw *TimerWheel[K, V]) spec_expire(index int, prevTicks int64, delta int64, remove func(entry *Entry[K, V], reason RemoveReason)) {
+	flag("wheel_unchecked_links")
+	requires("wf", sp_wfWheel(tw))
+	requires("level", index >= 0 && index < 5 && delta >= 1 && prevTicks >= 0 && prevTicks <= 1<<40)
+}
+
+// the slots visited: ticks prevTicks .. prevTicks+steps-1, in particular the tick that has just been reached
+// (prevTicks+delta), whose entries must expire or cascade to a finer level now - or every slot of the level
+// when more than a rotation has passed
+func (tw *TimerWheel[K, V]) spec_expire_loop1(i int64, start int64, end int64, mask uint, steps uint, index int, prevTicks int64, delta int64) {
+	invariant("range", start == prevTicks&int64(mask) && end == start+int64(steps) && i >= start && i <= end &&
+		mask == uint(sp_bucketsOf(index))-1 && steps >= 1 && steps <= uint(sp_bucketsOf(index)))
+	invariant("current_tick_visited", steps == uint(sp_bucketsOf(index)) || int64(steps) > delta)
+	decreases(end - i)
+}
+
+// ghost (policy domain): the entry is currently filed in the timer wheel
+func gh_po_sched[K comparable, V any](e *Entry[K, V]) bool { panic("ghost") }
+
+// (re)file an entry under its current deadline
+func (tw *TimerWheel[K, V]) spec_schedule(entry *Entry[K, V]) {
+	flag("wheel_unchecked_links")
+	requires("wf", sp_wfWheel(tw))
+	requires("entry", entry != nil)
+	set(gh_po_sched(entry), true)
+	ensures("scheduled", gh_po_sched(entry) && all(func(x *Entry[K, V]) bool { return imp(x != entry, gh_po_sched(x) == old(gh_po_sched(x))) }))
+	ensures("linked", entry.meta.wheelPrev != nil)
+}
+
+// take an entry out of the wheel
+func (tw *TimerWheel[K, V]) spec_deschedule(entry *Entry[K, V]) {
+	flag("wheel_unchecked_links")
+	requires("linked", entry != nil && entry.meta.wheelPrev != nil)
+	set(gh_po_sched(entry), false)
+	ensures("unscheduled", !gh_po_sched(entry) && all(func(x *Entry[K, V]) bool { return imp(x != entry, gh_po_sched(x) == old(gh_po_sched(x))) }))
+	ensures("unlinked", entry.meta.wheelPrev == nil && entry.meta.wheelNext == nil)
+}
+
+// move wheel time forward: every level whose tick changed is visited, finest first
+func (tw *TimerWheel[K, V]) spec_advance(now int64, remove func(entry *Entry[K, V], reason RemoveReason)) {
+	flag("wheel_unchecked_links")
+	requires("wf", sp_wfWheel(tw))
+	requires("time", tw.nanos >= 0 && now >= 0)
+	ensures("time", imp(now != 0, tw.nanos == now))
+}
+
+func (tw *TimerWheel[K, V]) spec_advance_loop1(i int, previous int64) {
+	invariant("levels", i >= 0 && i <= 5 && previous >= 0 && tw.nanos >= 0 && sp_wfWheel(tw))
+	decreases(5 - i)
+}
+
+func (tw *TimerWheel[K, V]) fspec_advance_remove(entry *Entry[K, V], reason RemoveReason) {
+	requires("locked", heldPolicy())
+	requires("reason", entry != nil && reason == EXPIRED)
+}
